@@ -123,6 +123,7 @@ func runC17(c *engine.Ctx, tier string) {
 		valueTables(c, "C17.1/"+v.id, v.vals, v.tree)
 		widthRule(c, "C17.2/"+v.id, v.tree)
 		narrowing(c, "C17.3/"+v.id, v.vals)
+		leafWritten(c, "C17.5/"+v.id, v.tree)
 	}
 	o := c.Custom("C17.2c", "K-args", "every BuildTree call outside the tree packages renders with RFC 7951 on (second argument the constant true)",
 		"Get in JSON encoding, the OPA input and the document given to the model plugin all follow RFC 7951: 64-bit integers and decimals are strings; the non-RFC path goes through float64 and loses digits")
@@ -422,6 +423,70 @@ func sibling(c *engine.Ctx, id, relA, relB string, subst [][2]string, exempt map
 			}
 			o.Fail(&engine.Violation{Key: relA + "/" + relB + "|" + name + " diverges", Pos: c.P.Pos(fa.Decl.Pos()), Func: fa.Name(),
 				Msg: fmt.Sprintf("the two variants of %s differ: only in %s: %s; only in %s: %s", name, relA, show(onlyA), relB, show(onlyB))})
+		}
+	}
+}
+
+// leafWritten: C17.5. Every value kind ends up in the tree, read through its own accessor type.
+func leafWritten(c *engine.Ctx, id, rel string) {
+	fn := strings.TrimPrefix(rel, "pkg/") + ".handleLeafValue"
+	o := c.Custom(id, "K-must(leaf written)", fn+": for every ValueType other than EMPTY, every path of that case assigns nodemap[pathelems[0]], and the assigned expression reads the value through the accessor type of that kind (STRING → TypedString, LEAFLIST_INT → TypedLeafListInt, …)",
+		"a kind whose case assigns nothing disappears from the document the plugin validates and Get returns; a case that reads through another kind's accessor reinterprets the bytes")
+	defer o.Done(14)
+	ps, err := c.A.PathsOpt(rel, engine.PathOpts{Roots: []string{fn}, Exact: true, NoInline: true})
+	if err != nil || len(ps) == 0 {
+		o.Undecided(rel, fmt.Sprintf("no paths for %s: %v", fn, err))
+		return
+	}
+	camel := func(kind string) string {
+		out := ""
+		for _, part := range strings.Split(kind, "_") {
+			if part == "" {
+				continue
+			}
+			out += part[:1] + strings.ToLower(part[1:])
+		}
+		return strings.Replace(out, "Leaflist", "LeafList", 1)
+	}
+	seen := map[string]bool{}
+	reported := map[string]bool{}
+	for _, p := range ps {
+		kind := ""
+		for i := range p.Events {
+			if e := &p.Events[i]; e.Kind == engine.EvCond && e.Lit.L == "$TypedValue.Type" && e.Lit.Mask == 2 && strings.Contains(e.Lit.R, ".ValueType_") {
+				kind = e.Lit.R[strings.Index(e.Lit.R, ".ValueType_")+len(".ValueType_"):]
+			}
+		}
+		if kind == "" || kind == "EMPTY" {
+			continue
+		}
+		o.Eval(1)
+		if !seen[kind] {
+			seen[kind] = true
+			o.Site(kind)
+		}
+		want := "Typed" + camel(kind)
+		wrote, through := false, false
+		for i := range p.Events {
+			e := &p.Events[i]
+			if e.Kind == engine.EvWrite && e.LHS == "$nodemap[$pathelems[0]]" {
+				wrote = true
+			}
+			// the accessor conversion appears in the assigned expression or in a call that feeds it
+			if (e.Kind == engine.EvWrite && strings.Contains(e.RHS, "."+want+"(")) || (e.Kind == engine.EvCall && (strings.Contains(e.Recv, "."+want+"(") || strings.Contains(e.Canon, "."+want+"("))) {
+				through = true
+			}
+		}
+		last := &p.Events[len(p.Events)-1]
+		switch {
+		case !wrote && !reported[kind+"w"]:
+			reported[kind+"w"] = true
+			o.Fail(&engine.Violation{Key: fn + "|" + kind + " not written", Pos: c.P.Pos(last.Pos), Func: fn,
+				Msg: "a value of kind " + kind + " leaves handleLeafValue on a path that assigns nothing to nodemap[pathelems[0]]: the leaf is missing from the tree"})
+		case wrote && !through && !reported[kind+"t"]:
+			reported[kind+"t"] = true
+			o.Fail(&engine.Violation{Key: fn + "|" + kind + " read through another accessor", Pos: c.P.Pos(last.Pos), Func: fn,
+				Msg: "a value of kind " + kind + " is not read through " + want + ": its bytes are interpreted as another kind"})
 		}
 	}
 }
